@@ -258,6 +258,7 @@ FmmCase genCase(const GenCfg& g){
     for(int e = 0 ; e < 4 ; ++e) if(g.executors & (1 << e)) execs[nbExec++] = e;
     c.executor = nbExec ? execs[U(0, nbExec)] : 0;
     c.threads = (g.executors & ~1) ? 1 + U(0, g.maxThreads) : 1;
+    if((g.executors & ~1) && g.schedules && g.varyThreads && U(0, 3) == 0) c.threadsCtor = 1 + U(0, g.maxThreads);
     if(g.schedules){
         const int strategy = U(0, 8);
         c.sched = *gen::scale(0.6, gen::container<std::vector<uint32_t>>(gen::resize(kNominalSize, gen::arbitrary<uint32_t>())));
